@@ -170,6 +170,14 @@ def _record_traces(ctx, b, path):
                 events.append({"op": "scale", "w": list(w), "total": total, "r": r, "id": len(events) + 1})
                 if vals != before:
                     ctx.violation("scale:mutated", "scale_and_discretize modified its input", events[-1])
+    # the same helper at LARGE totals (shares of 10^4 .. 10^6: where "is it already an integer" tests with relative tolerances bite)
+    for w, total in (([1, 1, 1], 1000000), ([1, 2, 4], 1000001), ([3, 3, 1], 700000), ([1, 1], 99999), ([2, 1, 1, 1], 500002), ([1] * 7, 1000003)):
+        vals = [x * 0.1 for x in w]
+        try:
+            r = [int(x) for x in scale_and_discretize(vals, total)]
+        except AssertionError:
+            r = [-1] * len(w)
+        events.append({"op": "scale", "w": list(w), "total": total, "r": r, "id": len(events) + 1})
     nscale = len(events)
     for k in range(1, 5):
         outcomes = [format(i, "02b") for i in range(k)]
